@@ -201,8 +201,33 @@ def gen_stage():
     """Regenerate coq/Gen/*.v from the current source. Returns dict fact -> status."""
     sys.path.insert(0, str(VERIF / "tools" / "gen"))
     import gen_all
+    global LAST_GEN
     with locked("coq"):
-        return gen_all.generate(REPO, COQ / "Gen", COQ / "Gen.ref")
+        LAST_GEN = gen_all.generate(REPO, COQ / "Gen", COQ / "Gen.ref")
+    return LAST_GEN
+
+
+LAST_GEN = {}
+
+
+def gen_deps(pid):
+    """generated modules (Gen/<X>.v) that Properties/<pid>.v depends on, transitively (Require closure)"""
+    seen, todo, gens = set(), ["Properties/%s" % pid], set()
+    while todo:
+        m = todo.pop()
+        if m in seen:
+            continue
+        seen.add(m)
+        f = COQ / (m + ".v")
+        if not f.exists():
+            continue
+        for line in re.findall(r"From Lou Require (?:Import |Export )?([^.]*(?:\.[A-Za-z][^.]*)*)\.\s", f.read_text() + " "):
+            for name in line.split():
+                path = name.replace(".", "/")
+                if path.startswith("Gen/"):
+                    gens.add(path[4:])
+                todo.append(path)
+    return sorted(gens)
 
 
 def coq_make(targets, timeout=1500):
@@ -364,6 +389,16 @@ class Check:
             c["axioms_reported_by_Print_Assumptions"] = prove["axioms"] or ["none (Closed under the global context) x%d" % prove["closed"]]
         if extra:
             c.update(extra)
+        # the tie to the source: a generated fact this property's theorems rest on whose shape the translator no longer
+        # recognises is replaced by the golden copy - the theorems then say nothing about the current source
+        deps = gen_deps(self.pid)
+        c["generated_facts_used"] = {d: LAST_GEN.get(d, "not generated in this run") for d in deps}
+        stale = [d for d in deps if str(LAST_GEN.get(d, "")).startswith("fallback")]
+        if stale and not self.violations:
+            self.violation("translator:" + ",".join(stale),
+                           "the translator no longer recognises the source shape of %s (%s): the theorems of Properties/%s.v are not tied "
+                           "to the current source and the correspondence found no failing input" % (stale, LAST_GEN.get(stale[0]), self.pid),
+                           dict(no_failing_input=True, translator_status={d: LAST_GEN.get(d) for d in stale}))
         if self.notes:
             c["notes"] = self.notes
         ev = dict(property_id=self.pid, tier=self.tier, seed=self.seed, level="proof",
